@@ -31,9 +31,12 @@ Report(rules, e) ==
 Init == /\ l = 1 /\ hst = [h \in Handles |-> InitHandle] /\ fidx = [f \in FileIds |-> 0] /\ scn = 1 /\ nviol = 0 /\ nbl = 0
 
 \* C10: the same call history under another schedule of the read callback.  An event marked tw repeats, on a twin handle whose
-\* callback delivers other sizes, the call recorded on the line before; on an intact file the two must answer alike: same code,
-\* same position, same byte cursor, same decode state, and for reads the same samples (position of the chunk, identity, count).
-TwinFields == {"ret", "tell", "tella", "rs", "cur", "ta", "id", "mf", "bs", "ch", "frames", "pt", "rt", "ttms", "hs"}
+\* callback delivers other sizes, the call recorded on the line before; on an intact file the two must answer alike in everything
+\* the property speaks of: same code, same sample position, and for reads the same samples (position of the chunk, identity, count,
+\* link index, channels).  The byte cursor (ov_raw_tell) and the internal decode state are NOT compared: behind the last page of a
+\* link the cursor stands wherever the last read of the callback ended, and a handle exactly on a link boundary may or may not have
+\* entered the next link yet - both seen in the thorough tier, neither is audio (false alarm corrected, DESIGN.md).
+TwinFields == {"ret", "tell", "tella", "ta", "id", "mf", "bs", "ch", "frames", "pt", "ttms", "hs"}
 TwinRule(e) ==
   IF "tw" \in DOMAIN e /\ l > 1 /\ "h" \in DOMAIN e /\ Strict(hst[e.h], HF(e.h))
   THEN LET p == Tr[l - 1] IN
